@@ -352,6 +352,7 @@ def run(ctx):
                         '`%s` calls the generator function %s and drops the result: none of its body runs, so the deletion / write it stands for '
                         'never happens (e.g. the metadata objects of a transient cassette survive close())' % (norm(n_)[:70], callee)))
     _cm15.complete_listing_clause(ctx, res, 'C15', 'C15.j', floor=2)
+    _cm15.exit_never_swallows_clause(ctx, res, 'C15', 'C15.k', floor=1)
     ch = res.clause('C15.h', 'R-DECISION', 'close(): the clean-up depends on read_only / transient only, and removes both key families', floor=1)
     close_m = cas.lookup('close')
     if close_m is None:
